@@ -339,8 +339,9 @@ class C14(Property):
         "generated Dicts are SparseDicts); every mapping child is stored under its own name (key = name)",
         "a slice step written as 0 raises ValueError when it is reached (9884fd3; zero_step_raises, "
         "find_print_denotes_lax); with strict lookups AND such a step a path can raise LookupError or ValueError, "
-        "whichever element is evaluated first: the strict theorems assume no zero step (UniSteps), the oracle then "
-        "accepts either error kind that some element raises",
+        "and the property text does not say which: the op-list theorems (evalOps_denotes_gen, find_denotes_gen) state "
+        "the precedence the code has (slice depth, then sequence order), the AST-level strict theorems assume no zero "
+        "step (UniSteps), the oracle accepts either error kind that some element raises, the correspondence is exact",
         "a start element that was removed from its List (popped / deleted / replaced) is outside model A: oracle "
         "only (expected: it is the root of its own tree); the expression cache is emptied by the oracle when full",
     ]
@@ -802,20 +803,32 @@ C14.rule = (
     "trailing slash, optional escapes), 75% of them with all `..` first (the theorem's Canon domain); 15% malformed "
     "strings over path punctuation for the tokenizer; 25% of the trees are reached through a history of List operations "
     "with path evaluations in between and with members that are built detached, queried and then grafted (such "
-    "elements are preferred start elements, 70% absolute paths); non-trivial = AST of >= 2 steps, or >= 2 ops, or an error")
+    "elements are preferred start elements, 70% absolute paths); 6% of the cases are 'mixed' paths (a wide slice, then "
+    "names that exist below some of the selected children only, more slices and a slice step written as 0 at a random "
+    "place, 90% strict) so that a failing lookup and a zero step are reachable in one evaluation, at equal and at "
+    "different slice depths (tags both-error-kinds-possible:*); non-trivial = AST of >= 2 steps, or >= 2 ops, or an error")
 C14.level_note = (
-    "Proved in Lean for all trees/starts/single, for evaluations that can raise one kind of error only (no slice "
-    "step written as 0, or non-strict lookups: Uni/UniSteps): FIFO work list = depth-first reading "
-    "(evalOps_denotes); find = the single-table of that reading of tokenize(path) for every string that compiles "
-    "(find_denotes; single_spec restates the match of the model's find, i.e. holds by construction); compiled AST "
+    "Proved in Lean for all trees/starts/single/strict and EVERY op list (h5, no Uni hypothesis): the FIFO work list "
+    "= the depth-first reading with the precedence of errors made explicit (evalOps_denotes_gen, spec `denOrd`: every "
+    "error carries the number of slice steps passed before it; the smallest depth wins, on a tie the first in sequence "
+    "order — the evaluator finishes all matches of one slice step before continuing below any of them); find = the "
+    "single-table of that reading of tokenize(path) for every string that compiles (find_denotes_gen); when only one "
+    "kind of error can arise (Uni: no slice step written as 0, or non-strict lookups) the precedence is immaterial "
+    "and `denOrd` forgets to the plain reading `denOps` (denOrd_forget_of_uni, proved directly; evalOps_denotes_cor, "
+    "evalOps_denotes, find_denotes; single_spec restates the match of the model's find, i.e. holds by construction); "
+    "the AST-level theorems below keep UniSteps, because spec B's step-by-step `denote` meets errors in yet another "
+    "order (step-major) — with strict lookups AND a zero step the documentation does not say which exception is "
+    "raised, so the oracle accepts either kind that some element raises, while the correspondence compares the "
+    "exception exactly (key `result`) and compares Lean's `denOrd` (outcome and error depth) with a Python "
+    "transcription of `denOrd` over the documented navigation of the real elements (key `ordered`); compiled AST "
     "= spec denotation incl. [-n], slice defaults, zero strides (denOps_compile); tokenizer∘printer for the whole "
     "concrete grammar incl. zero strides and a name ending in a backslash as last step (tokenize_print); end to "
     "end find(print p) = denote p on the Canon domain (find_print_denotes, find_print_denotes_lax) and = denote "
     "(cancel p) for every path (find_print_cancel, the exact content of KF-C14-a; C14_full_fails is its negation "
     "witness); a step written as 0 raises ValueError when reached, strict or not (zero_step_raises, "
     "C14_zero_step_ok — KF-C14-b is closed by 9884fd3); results strictly increasing in document order "
-    "(find_sorted). Not proved: strict lookups on a path that also has a zero step (LookupError vs ValueError "
-    "depends on evaluation order; correspondence + oracle accepting either). Tied to the code by correspondence "
+    "(find_sorted). Not proved at the AST level: strict lookups on a path that also has a zero step (denOps_compile / "
+    "find_print_denotes keep UniSteps; the op-list theorems above cover it). Tied to the code by correspondence "
     "only: scan = _tokenize_re.findall (regex text pinned; exhaustive over all strings of length <= 4/5 over "
     "`/.[]:-01a\\`), pyInt = int() and pySlice = list slicing (exhaustive small scopes against Python itself), the "
     "element-tree navigation (_index, parent, root, children) of the real classes; start elements removed from "
